@@ -444,8 +444,12 @@ Lemma w_autoinc : autoinc w_auto_bracket [B "id"; B "b"] [B "id"] = AutoNone /\
 Proof. vm_compute. split; reflexivity. Qed.
 
 (** partial index predicate *)
-Lemma w_where : index_predicate (B "CREATE INDEX `ix_WHERE_y` ON `t` (`a`) WHERE a > 0") = Some (B "_y` ON `t` (`a`) WHERE a > 0") /\
-                index_predicate (B "CREATE INDEX i on t (a) where a > 0") = None.
+Lemma w_where : index_predicate_old (B "CREATE INDEX `ix_WHERE_y` ON `t` (`a`) WHERE a > 0") = Some (B "_y` ON `t` (`a`) WHERE a > 0") /\
+                index_predicate_old (B "CREATE INDEX i on t (a) where a > 0") = None.
+Proof. vm_compute. split; reflexivity. Qed.
+(** since the fix (the keyword is looked for after a closing parenthesis, in any case) *)
+Lemma w_where_fixed : index_predicate (B "CREATE INDEX `ix_WHERE_y` ON `t` (`a`) WHERE a > 0") = Some (B "a > 0") /\
+                      index_predicate (B "CREATE INDEX i on t (a) where a > 0") = Some (B "a > 0").
 Proof. vm_compute. split; reflexivity. Qed.
 
 (** foreign-key names: bracket quoting; two keys of the same shape *)
@@ -529,10 +533,9 @@ Proof.
     + rewrite (index_of_miss _ _ _ E). apply IH. cbn [occurs_cs] in Hp. destruct (lit_cs K_WHERE (b :: pre)); [discriminate|exact Hp].
 Qed.
 
-Theorem index_predicate_printed pre c p : occurs_cs K_WHERE pre = false -> ~ In c K_WHERE ->
-  index_predicate (pre ++ c :: K_WHERE ++ p) = Some (trim_space p).
-Proof. intros H1 H2. unfold index_predicate. rewrite index_of_where by assumption. reflexivity. Qed.
-
+Theorem index_predicate_old_printed pre c p : occurs_cs K_WHERE pre = false -> ~ In c K_WHERE ->
+  index_predicate_old (pre ++ c :: K_WHERE ++ p) = Some (trim_space p).
+Proof. intros H1 H2. unfold index_predicate_old. rewrite index_of_where by assumption. reflexivity. Qed.
 
 (** ** leftmost match: a generic finder *)
 Section Finder.
@@ -565,6 +568,8 @@ Lemma find_gen_first name s : find_gen name s = find_first _ (match_gen_at name)
 Proof. induction s as [|b s IH]; cbn [find_gen find_first]; [reflexivity|]. destruct (match_gen_at name (b :: s)); [reflexivity|exact IH]. Qed.
 Lemma find_autoinc_first s : find_autoinc s = find_first _ match_autoinc_at s.
 Proof. induction s as [|b s IH]; cbn [find_autoinc find_first]; [reflexivity|]. destruct (match_autoinc_at (b :: s)); [reflexivity|exact IH]. Qed.
+Lemma find_where_first s : find_where s = find_first _ where_at s.
+Proof. induction s as [|b s IH]; cbn [find_where find_first]; [reflexivity|]. destruct (where_at (b :: s)); [reflexivity|exact IH]. Qed.
 
 (** ** setGenExpr on a printed generated column *)
 Definition not_comma (c : N) : bool := negb (N.eqb c ch_comma).
@@ -744,4 +749,19 @@ Proof.
   assert (existsb (bytes_eqb name) cols = true) as ->.
   { apply existsb_exists. exists name. split; [exact Hin|apply bytes_eqb_refl]. }
   rewrite bytes_eqb_refl. reflexivity.
+Qed.
+
+(** ** the partial-index predicate since the fix of addIndexes (reIdxWhere): the statement is [pre], the
+    closing parenthesis of the parts, spaces, WHERE, a white-space byte and at least one more byte; if no
+    match of the regexp starts inside [pre], the predicate read back is everything after the keyword, trimmed *)
+Theorem index_predicate_printed pre w1 s0 c p :
+  forallb is_space w1 = true -> is_space s0 = true ->
+  no_start_before _ where_at (pre ++ ch_rp :: w1 ++ K_WHERE ++ s0 :: c :: p) (length pre) = true ->
+  index_predicate (pre ++ ch_rp :: w1 ++ K_WHERE ++ s0 :: c :: p) = Some (trim_space (s0 :: c :: p)).
+Proof.
+  intros Hw Hs0 Hpre. unfold index_predicate. rewrite find_where_first, (find_first_skip _ _ _ _ Hpre).
+  assert (where_at (ch_rp :: w1 ++ K_WHERE ++ s0 :: c :: p) = Some (s0 :: c :: p)) as Hm.
+  { unfold where_at. rewrite N.eqb_refl. rewrite skip_spaces_tail by (exact Hw || reflexivity).
+    rewrite lit_ci_self. rewrite Hs0. reflexivity. }
+  cbn [find_first]. rewrite Hm. reflexivity.
 Qed.
